@@ -103,13 +103,17 @@ TOK = ["aa", "'", '"', "it's", "James'", '"q', 'q"', "'q", "q'", '"q r"', "'q r'
        # appended later: sentence ends that involve a closing quote (the sentence heuristic wants two letters before it)
        "\"the plan\".", "plan\".", "'so'!", "(\"ok.\")",
        # appended later: scheme-less bare URLs and e-mail autolinks (their text differs from their destination)
-       "www.u.v/O'Reilly", "www.u.v/it's", "<o'r@b.cc>"]   # (a URL written as link TEXT is prose: not included)
+       "www.u.v/O'Reilly", "www.u.v/it's", "<o'r@b.cc>",
+       # appended later: angle-bracket runs that are NOT inline HTML (their quotes are prose and get converted; the wrapper must
+       # not treat the run differently before and after the conversion), and a private-use character
+       "<your team's name>", "<y and \"z > w\" more>", "<a b='it''s'>", "\ue000"]   # (a URL written as link TEXT is prose: not included)
 REPS = [TOK.index(t) for t in ("aa", "it's", '"q', 'q"', '"q r"', "`it's \"c\"`", "{% t a=\"x\" b='y' %}", "**\"b\"**", "<http://u/it's>")]
 
 _PROTECT = re.compile(
     r"(`+)(?:(?!\1).)+\1"            # code spans
     r"|\{%.*?%\}|\{#.*?#\}|\{\{.*?\}\}|<!--.*?-->"   # tags, comments
-    r"|</?[a-zA-Z][^>]*>"            # html tags
+    # inline HTML tags in CommonMark's sense (an angle-bracket run with a stray quote such as <your team's name> is prose)
+    r"|<[a-zA-Z][a-zA-Z0-9-]*(?:\s+[a-zA-Z_:][a-zA-Z0-9_.:-]*(?:\s*=\s*(?:[^\s\"'=<>`]+|'[^']*'|\"[^\"]*\"))?)*\s*/?>|</[a-zA-Z][a-zA-Z0-9-]*\s*>"
     r"|<[a-z]+://[^>]*>|https?://\S+|www\.\S+"      # autolinks, bare URLs
     r"|\]\([^)]*\)"                  # link destination + title
     r"|\\['\"]", re.S)               # escaped quotes
@@ -256,6 +260,57 @@ class RefLinks(Space):
         return self.oracle(self, case, self.text(case), case[3], case[4])
 
 
+class SameText(Space):
+    """Two inline scopes of one document whose visible text is identical but whose inline markup differs (a rewrite keyed on the
+    text alone would hand the slices of one to the other): every ordered pair of variants x layout x width x mode."""
+
+    prop = "C08"
+    name = "same-text"
+    VARIANTS = ['say "aa bb cc" it\'s', 'say "aa *bb* cc" it\'s', 'say "aa **bb** cc" it\'s', 'say "*aa* bb cc" it\'s', 'say "aa bb *cc*" it\'s',
+                'say "aa [bb](u) cc" it\'s', '*say "aa bb cc" it\'s*', 'say "aa ~~bb~~ cc" it\'s', 'say "aa `bb` cc" it\'s', 'say "aa bb\ncc" it\'s']
+    LAYOUTS = ["{A}\n\n{B}\n", "# {A}\n\n{B}\n", "{A}\n\n# {B}\n", "| {A} | {B} |\n|---|---|\n| {B} | {A} |\n", "- {A}\n- {B}\n", "> {A}\n\n{B}\n",
+               "{A}\n\nzz[^1]\n\n[^1]: {B}\n"]
+
+    def __init__(self, tier, oracle):
+        self.oracle = oracle
+        self.widths = (88, 12) if tier == "quick" else (88, 30, 12, 1, 0)
+        self.floors = {"converted": 200}
+
+    def cases(self):
+        for a in range(len(self.VARIANTS)):
+            for b in range(len(self.VARIANTS)):
+                for l in range(len(self.LAYOUTS)):
+                    for w in self.widths:
+                        for sem in (False, True):
+                            yield (a, b, l, w, sem)
+
+    def text(self, case):
+        a, b, l, w, sem = case
+        A, B = self.VARIANTS[a], self.VARIANTS[b]
+        if "|" in self.LAYOUTS[l] or "#" in self.LAYOUTS[l]:
+            A, B = A.replace("\n", " "), B.replace("\n", " ")
+        return self.LAYOUTS[l].replace("{A}", A).replace("{B}", B)
+
+    def describe(self, case):
+        return {"text": self.text(case), "width": case[3], "semantic": case[4]}
+
+    def smaller(self, case):
+        a, b, l, w, sem = case
+        if a:
+            yield (0, b, l, w, sem)
+        if b:
+            yield (a, 0, l, w, sem)
+        if l:
+            yield (a, b, 0, w, sem)
+        if w != 88:
+            yield (a, b, l, 88, sem)
+        if sem:
+            yield (a, b, l, w, False)
+
+    def evaluate(self, case):
+        return self.oracle(self, case, self.text(case), case[3], case[4])
+
+
 def spaces(tier):
     q = tier == "quick"
     oracle = make_oracle(tier)
@@ -270,4 +325,4 @@ def spaces(tier):
                      modes=(False,), floors={"converted": 100}, **kw)
     cell = ParaSpace("C08", "doc-cell", TOK, 2, oracle, docspace.contexts(0), sepnames=("sp",), widths=(88,), lead="| zz | ",
                      trail=" |\n|---|---|", modes=(False,), floors={"converted": 100}, **kw)
-    return [Fn(6 if q else 7), para, head, cell, TwoParas(tier), RefLinks(tier, oracle)]
+    return [Fn(6 if q else 7), para, head, cell, TwoParas(tier), RefLinks(tier, oracle), SameText(tier, oracle)]
